@@ -315,10 +315,12 @@ Qed.
 (* ---- identifiers made of letters, underscores and decimal digits ---- *)
 Definition letterb (b : byte) : bool := is_letter (b2n b).
 Definition digitb (b : byte) : bool := is_decimal (b2n b).
-Definition idchar (b : byte) : bool := letterb b || digitb b.
+(* what continues an identifier behind its leading letters: digits and - . : * *)
+Definition contb (b : byte) : bool := is_ident_cont (b2n b).
+Definition idchar (b : byte) : bool := letterb b || contb b.
 
 Lemma idchar_ascii b : idchar b = true -> ascii b.
-Proof. unfold idchar, letterb, digitb, ascii; cls. lia. Qed.
+Proof. unfold idchar, letterb, contb, ascii; cls. lia. Qed.
 
 Fixpoint spanb (p : byte -> bool) (s : list byte) : list byte * list byte :=
   match s with
@@ -375,7 +377,7 @@ Proof.
   - rewrite app_assoc, <- Hsp. exact Hn.
 Qed.
 
-(* ident_more takes the rest: groups of a digit followed by letters *)
+(* ident_more takes the rest: groups of a continuation character followed by letters *)
 Lemma ident_more_spec : forall k name after n st,
   (length name <= k)%nat ->
   at_bytes st (name ++ after) -> forallb idchar name = true ->
@@ -393,12 +395,10 @@ Proof.
     + apply (IH [] after n st); simpl; auto; lia.
     + destruct n; [simpl in Hn; lia|].
       simpl in Hid. apply andb_true_iff in Hid. destruct Hid as [Hd Hrest].
-      assert (Hdig : digitb d = true) by (unfold idchar in Hd; rewrite Hhd in Hd; exact Hd).
+      assert (Hcont : is_ident_cont (b2n d) = true) by (unfold idchar in Hd; rewrite Hhd in Hd; exact Hd).
       assert (Hda : ascii d) by (apply idchar_ascii; exact Hd).
       cbn [app] in Hab. destruct (ab_ascii st d _ Hab Hda) as [Hch _].
       cbn [ident_more]. rewrite Hch.
-      assert (Hcont : is_ident_cont (b2n d) = true).
-      { unfold digitb in Hdig. cls in Hdig. cls. lia. }
       rewrite Hcont.
       destruct (read_identifier_span rest after n (read_char st) (ab_read_ascii st d _ Hab Hda) Hrest He) as (st1 & R1 & Hab1).
       { simpl in Hn. lia. }
@@ -444,7 +444,7 @@ Proof.
     - simpl. destruct after as [|b t]; [reflexivity|]. destruct He as (_ & _ & _ & H33 & _). apply N.eqb_neq. exact H33.
     - simpl. simpl in Hid. apply andb_true_iff in Hid. destruct Hid as [_ Hid].
       apply andb_true_iff in Hid. destruct Hid as [Hx _].
-      unfold idchar, letterb, digitb in Hx; cls in Hx. lia. }
+      unfold idchar, letterb, contb in Hx; cls in Hx. lia. }
   assert (Hlc : lex_char n st = lex_ident n st (line st) (idx st)).
   { unfold lex_char, lex_default. rewrite Hlet, Hpk, andb_false_r.
     cls in Hlet.
